@@ -24,6 +24,7 @@ func runCounter(sc Scenario, tr *Trace, seed int64) {
 		fatal("NewRatioCounter: %v", err)
 	}
 	useRatio := strOr(sc.Cfg, "kind", "ratio") == "ratio"
+	var snap *memmetrics.RollingCounter // kind "counter": a clone of a, from then on used side by side with it as counter "b"
 	// offset of the frozen origin inside a resolution step (Time.Truncate works from the zero time)
 	off := int(T0.Sub(T0.Truncate(res)) / tick)
 	tr.Emit(M{"e": "Reset", "scn": sc.ID, "cfg": M{"n": n, "r": r, "tps": int(time.Second / tick), "off": off}})
@@ -42,6 +43,8 @@ func runCounter(sc Scenario, tr *Trace, seed int64) {
 				} else {
 					rc.IncB(v)
 				}
+			} else if which == "b" && snap != nil {
+				snap.Inc(v)
 			} else {
 				which = "a"
 				a.Inc(v)
@@ -57,13 +60,24 @@ func runCounter(sc Scenario, tr *Trace, seed int64) {
 				}
 				tr.Emit(M{"e": "Count", "ca": ca, "cb": cb, "rok": ratio == want})
 			} else {
-				tr.Emit(M{"e": "Count", "ca": a.Count(), "cb": 0, "rok": true})
+				cb := int64(0)
+				if snap != nil {
+					cb = snap.Count()
+				}
+				tr.Emit(M{"e": "Count", "ca": a.Count(), "cb": cb, "rok": true})
 			}
+		case "clone": // b becomes a clone of a (plain counters only)
+			if useRatio {
+				continue
+			}
+			snap = a.Clone()
+			tr.Emit(M{"e": "Clone"})
 		case "reset":
 			if useRatio {
 				rc.Reset()
 			} else {
 				a.Reset()
+				snap = nil
 			}
 			tr.Emit(M{"e": "CReset"})
 		default:
